@@ -90,6 +90,14 @@ func (b *builder) packages(prefix, header string, per int) []*tv.Package {
 		if needs {
 			prelude = header + "\n"
 		}
+		for _, imp := range []string{"log", "fmt"} {
+			for _, f := range b.fns[i:j] {
+				if strings.Contains(f.src, imp+".P") {
+					prelude = "import \"" + imp + "\"\n" + prelude
+					break
+				}
+			}
+		}
 		for _, t := range b.types {
 			prelude += t + "\n"
 		}
@@ -398,6 +406,21 @@ func genFuncs(b *builder, level int) {
 }
 
 func genPrims(b *builder, level int) {
+	b.add("prim/random", "func FN(x uint64) uint64 {\n\tr := machine.RandomUint64()\n\treturn r - r + x\n}")
+	b.add("prim/timenow", "func FN(x uint64) uint64 {\n\tt := machine.TimeNow()\n\treturn t - t + x\n}")
+	b.add("prim/log-printf", "func FN(x uint64) uint64 {\n\tlog.Printf(\"x is %d\", x)\n\treturn x + 1\n}")
+	b.add("prim/log-println-mid", "func FN(x uint64) uint64 {\n\tvar v = x\n\tif x > 2 {\n\t\tlog.Println(\"big\")\n\t\tv = 2\n\t}\n\treturn v\n}")
+	b.add("prim/fmt-println", "func FN(x uint64) uint64 {\n\tfmt.Println(\"value\", x)\n\treturn x * 2\n}")
+	b.add("prim/panic-literal", "func FN(x uint64) uint64 {\n\tif x > 3 {\n\t\tpanic(\"too big\")\n\t}\n\treturn x\n}")
+	b.add("prim/panic-nonliteral", "func FN(x uint64, s string) uint64 {\n\tif x > 3 {\n\t\tpanic(s)\n\t}\n\treturn x + 1\n}")
+	b.add("prim/string-of-string", "func FN(s string) string {\n\treturn string(s) + \"a\"\n}")
+	b.add("func/generic-explicit", "func FNid[T any](v T) T {\n\treturn v\n}\n\nfunc FN(x uint64) uint64 {\n\treturn FNid[uint64](x) + 1\n}")
+	b.add("func/generic-implicit", "func FNid[T any](v T) T {\n\treturn v\n}\n\nfunc FN(x uint64, p bool) uint64 {\n\tif FNid(p) {\n\t\treturn FNid(x)\n\t}\n\treturn 0\n}")
+	b.add("func/generic-two-params", "func FNfst[A any, B any](a A, b B) A {\n\treturn a\n}\n\nfunc FN(x uint64) uint64 {\n\treturn FNfst[uint64, bool](x, true) + FNfst(x, x)\n}")
+	b.add("func/generic-slice", "func FNlen[T any](a []T) uint64 {\n\treturn uint64(len(a))\n}\n\nfunc FN(a []uint64, b []byte) uint64 {\n\treturn FNlen(a)*10 + FNlen(b)\n}")
+	b.add("data/array/new", "func FN(x uint64) uint64 {\n\ta := new([3]uint64)\n\t_ = a\n\treturn x\n}")
+	b.add("data/map/of-slices", "func FN(k uint64, x uint64) uint64 {\n\tm := make(map[uint64][]uint64)\n\tm[k] = append(m[k], x)\n\treturn uint64(len(m[k])) + uint64(len(m[k+1]))\n}")
+	b.add("data/any/param", "func FNany(v interface{}) uint64 {\n\treturn 3\n}\n\nfunc FN(x uint64) uint64 {\n\treturn FNany(x) + x\n}")
 	b.add("prim/put-get-64", "func FN(x uint64) uint64 {\n\tb := make([]byte, 8)\n\tmachine.UInt64Put(b, x)\n\treturn machine.UInt64Get(b)\n}")
 	b.add("prim/put-bytes-64", "func FN(x uint64) []byte {\n\tb := make([]byte, 8)\n\tmachine.UInt64Put(b, x)\n\treturn b\n}")
 	b.add("prim/get-64", "func FN(b []byte) uint64 {\n\tif uint64(len(b)) < 8 {\n\t\treturn 0\n\t}\n\treturn machine.UInt64Get(b)\n}")
